@@ -41,6 +41,11 @@ def kinds_for(schema, fdef, natural=None):
     if core[0] == "list":
         out.append(("nonlist", "value", 42))
         out.append(("nonlist-dict", "value", {"k": 1}))
+        # ... and falsy ones (an empty string / tuple / dict, zero, False are not lists either)
+        out.append(("nonlist-empty-string", "value", ""))
+        out.append(("nonlist-zero", "value", 0))
+        out.append(("nonlist-empty-dict", "value", {}))
+        out.append(("nonlist-empty-tuple", "value", ()))
         # failures of single *items* (the error path must carry the index)
         item_t = core[1]
         item_core = item_t[1] if item_t[0] == "nn" else item_t
